@@ -51,8 +51,8 @@ func TestCheck(t *testing.T) {
 	reactx.SetDelays(0)
 	matrix := reactx.Matrix(points, actions)
 	M := len(matrix)
-	variants := run.N(2, 250)
-	nRandom := run.N(250, 120000)
+	variants := run.N(4, 250)
+	nRandom := run.N(700, 120000)
 	total := M*variants + nRandom
 	agg := vlib.NewHitAgg()
 	pf := reactx.Profile{Cache: true}
